@@ -93,8 +93,7 @@ fcppt::container::tree::object<T> &fcppt::container::tree::object<T>::operator=(
 
   children_ = this->move_children(std::move(_other.children_));
 
-  std::swap(parent_, _other.parent_);
-
+  // The parent of a node does not change when it is assigned to.
   return *this;
 }
 
